@@ -460,7 +460,20 @@ func C17(r *h.Run) {
 	}
 	if len(withSvc) >= 2 {
 		a, b := withSvc[0], withSvc[len(withSvc)-1]
-		for oi, order := range [][]int{{noSvc, a}, {a, noSvc}, {noSvc, a, b}, {a, noSvc, b}, {a, b, noSvc}, {a, b}} {
+		// two files of one request must not generate the same output file
+		for _, cand := range withSvc[1:] {
+			if files[cand].GoPackage != files[a].GoPackage {
+				b = cand
+			}
+		}
+		if files[b].GoPackage == files[a].GoPackage {
+			b = a
+		}
+		orders := [][]int{{noSvc, a}, {a, noSvc}}
+		if b != a {
+			orders = append(orders, []int{noSvc, a, b}, []int{a, noSvc, b}, []int{a, b, noSvc}, []int{a, b})
+		}
+		for oi, order := range orders {
 			req := &pluginpb.CodeGeneratorRequest{}
 			for _, fi := range order {
 				fd := files[fi].descriptor(fmt.Sprintf("t%d/svc.proto", fi))
